@@ -254,6 +254,17 @@ let handle_record (r : string) : issue list =
              (* allocated bytes of the three matrices: the extracted FpCap.alloc_score on the observed capacities
                 (sequence and scoring matrix before the call, score matrix after it) *)
              let cap b = iz (alloc_score (z es) p (z (gi "scap")) (z (gi "pcap")) (z (max (oi 1) 0)) (nat_of_int b)) in
+             (* the destination as a Vec (FpCap.cb_resize, fp_resize_holds_rows): rows() never exceeds capacity(); a
+                resize that fits keeps the allocation (seeded change C06/6 reserved `rows - capacity` and set_len) *)
+             if (not panicked) && gs "dcap" <> "" && List.length outs > 1 then begin
+               if oi 0 > oi 1 then
+                 add [Invariant (Printf.sprintf "rows-exceed-capacity:%s-left-the-score-matrix-with-rows()=%d-capacity()=%d(%s)" name (oi 0) (oi 1) params)]
+               else begin
+                 let m = cb_resize { cb_rows = z (gi "drows"); cb_cap = z (gi "dcap") } (z (oi 0)) (z (oi 1)) in
+                 if iz m.cb_cap <> oi 1 then
+                   add [Guard (Printf.sprintf "%s:score-matrix-capacity-after=%d-model=%d(rows=%d,capacity-before=%d:a-resize-that-fits-keeps-the-allocation)" name (oi 1) (iz m.cb_cap) (oi 0) (gi "dcap"))]
+               end
+             end;
              if (not panicked) && List.length outs > 2 && oi 2 >= 0 then
                add [Invariant (Printf.sprintf "write-past-the-owned-rows(inside-capacity):%s-damaged-canary-at-byte-%d(%s)" name (oi 2) params)];
              match guard_cmp g ~rows_entered:(gi "b" - gi "a") ~observed_rows:(oi 0) with
